@@ -339,7 +339,15 @@ def _sheet_substream(sheet: dict, sst: _SST, base: int, selected: bool, date_190
     return bof + index + dims + bytes(body) + w2 + _rec(EOF)
 
 
-def workbook_stream(sheets: list[dict], *, filepass_at: int | None = None, date_1904: bool = False) -> bytes:
+def blip_record(image: bytes, kind: str = "png") -> bytes:
+    """An OfficeArt BLIP record as it sits in the drawing group of a workbook: header (recVer/recInstance, recType, recLen), 16-byte UID, tag byte, file bytes."""
+    import hashlib
+    inst, rtype = {"png": (0x6E0, 0xF01E), "jpeg": (0x46A, 0xF01D)}[kind]
+    body = hashlib.md5(image).digest() + b"\xff" + image
+    return struct.pack("<HHI", inst << 4, rtype, len(body)) + body
+
+
+def workbook_stream(sheets: list[dict], *, filepass_at: int | None = None, date_1904: bool = False, pictures: list | None = None) -> bytes:
     if not sheets:
         raise ValueError("a workbook needs at least one sheet")
     seen = set()
@@ -361,6 +369,12 @@ def workbook_stream(sheets: list[dict], *, filepass_at: int | None = None, date_
     head += [_xf(0, True, first=(i == 0)) for i in range(15)]
     head += [_xf(0, False), _xf(FMT_DATE, False), _xf(FMT_DATETIME, False), _xf(FMT_TIME, False)]
     head.append(_rec(STYLE, struct.pack("<HBB", 0x8000, 0, 0xFF)))
+    if pictures:
+        # MSODRAWINGGROUP (0x00EB): the workbook's picture store; pictures = [(kind, bytes)], each small enough for one record
+        payload = b"".join(blip_record(data, kind) for kind, data in pictures)
+        if len(payload) > 8000:
+            raise ValueError("pictures too large for a single MSODRAWINGGROUP record")
+        head.append(_rec(0x00EB, payload))
     if filepass_at is not None:
         # index among the records that follow BOF: head..., BOUNDSHEET..., SST(+CONTINUE, EXTSST), EOF
         if not 0 <= filepass_at <= len(head) + len(sheets) + 1:
@@ -399,8 +413,8 @@ def workbook_stream(sheets: list[dict], *, filepass_at: int | None = None, date_
 
 def write_xls(sheets: list[dict], *, props: dict[int, object] | None = None, codepage: int = 1252,
               filepass_at: int | None = None, extra_streams: dict[str, bytes] | None = None,
-              date_1904: bool = False) -> bytes:
-    streams: dict[str, bytes] = {"Workbook": workbook_stream(sheets, filepass_at=filepass_at, date_1904=date_1904)}
+              date_1904: bool = False, pictures: list | None = None) -> bytes:
+    streams: dict[str, bytes] = {"Workbook": workbook_stream(sheets, filepass_at=filepass_at, date_1904=date_1904, pictures=pictures)}
     if props is not None:
         streams["\x05SummaryInformation"] = ole2.property_set(props, codepage=codepage)
     if extra_streams:
